@@ -333,7 +333,25 @@ fn explore(which: &str, seed: u64, max_steps: usize, stick: u64, spur: u64, weak
     let g = SCHED.inner.lock().unwrap();
     let b = BOOK.lock().unwrap();
     let viol = &b.as_ref().unwrap().violations;
-    let final_val = if which == "mutex" { *mutex.lock() } else { *rw.read() };
+    // every thread is done, so the lock is free: one more acquisition must succeed.  It runs on a helper thread under a
+    // watchdog — a lock word left with stale waiter bits (a lost hand-off) makes this acquisition spin for ever, which
+    // is the same `livelock` verdict as a program thread that never returns.
+    let final_val = {
+        let (m2, r2, is_mutex) = (mutex.clone(), rw.clone(), which == "mutex");
+        let probe = std::thread::spawn(move || if is_mutex { *m2.lock() } else { *r2.read() });
+        let t0 = std::time::Instant::now();
+        while !probe.is_finished() && t0.elapsed().as_secs() < 20 {
+            std::thread::sleep(std::time::Duration::from_micros(200));
+        }
+        if !probe.is_finished() {
+            let tail: Vec<String> = g.trace.iter().rev().take(400).rev().cloned().collect();
+            println!("livelock steps={} viol=final-acquisition-never-returns :: {}", steps, tail.join(" ; "));
+            use std::io::Write as _;
+            std::io::stdout().flush().unwrap();
+            std::process::exit(3);
+        }
+        probe.join().unwrap()
+    };
     let lost = if final_val as usize != WRITES.load(O::SeqCst) { format!(" lost-update:{}!={}", final_val, WRITES.load(O::SeqCst)) } else { String::new() };
     format!("{} steps={} viol={}{} :: {}", verdict, steps, if viol.is_empty() { "-".to_string() } else { viol.join("|").replace(' ', "_") }, lost, g.trace.join(" ; "))
 }
